@@ -8,7 +8,9 @@ import (
 	"encoding/hex"
 	"encoding/json"
 	"fmt"
+	"os"
 	"sort"
+	"strconv"
 	"testing"
 	"time"
 
@@ -32,8 +34,15 @@ const (
 	baseHeight = int64(blocks.DailyHeight * 20) // multiple of 50
 	nTok       = 2
 	nUser      = 2
-	initBal    = 4
 )
+
+// initial balance of every user in every bridged denom (VERIF_INITBAL, default 4; must match the generator's InitBal)
+var initBal = func() int64 {
+	if v, err := strconv.ParseInt(os.Getenv("VERIF_INITBAL"), 10, 64); err == nil && v > 0 {
+		return v
+	}
+	return 4
+}()
 
 var baseTime = time.Date(2024, 1, 1, 0, 0, 0, 0, time.UTC)
 
@@ -104,10 +113,10 @@ func newWorld(sameContract bool) *world {
 type run struct {
 	w        *world
 	ctx      sdk.Context
-	height   int64 // relative
+	height   int64             // relative
 	nonce    map[string]uint64 // next event nonce per chain
 	ethH     map[string]uint64
-	seen     map[[2]int]bool           // issued checkpoints (nonce, est) ever observed on a stored batch
+	seen     map[[2]int]bool            // issued checkpoints (nonce, est) ever observed on a stored batch
 	lastSeen map[int]st.OutgoingTxBatch // last stored version of every batch (external form)
 }
 
@@ -257,7 +266,9 @@ func (r *run) observe() map[string]any {
 	for kx := range r.seen {
 		keys = append(keys, kx)
 	}
-	sort.Slice(keys, func(i, j int) bool { return keys[i][0] < keys[j][0] || (keys[i][0] == keys[j][0] && keys[i][1] < keys[j][1]) })
+	sort.Slice(keys, func(i, j int) bool {
+		return keys[i][0] < keys[j][0] || (keys[i][0] == keys[j][0] && keys[i][1] < keys[j][1])
+	})
 	issued := []any{}
 	for _, kx := range keys {
 		issued = append(issued, []int{kx[0], kx[1]})
